@@ -69,6 +69,8 @@ func c11judged() []Choice {
 		tx("send(to the signer itself)", chain.TxSpec{Msg: "send", From: 3, To: 3, Amount: 5}),
 		tx("dao_transfer(to a 23-byte address)", chain.TxSpec{Msg: "dao_transfer", From: 4, To: 6000 + 9, Amount: 5}),
 		tx("send(to a module address)", chain.TxSpec{Msg: "send_module", From: 3, Key: "pos", Amount: 5}),
+		tx("send(more than the balance, to an address never seen)", chain.TxSpec{Msg: "send", From: 3, To: 14, Amount: 1000 * min}),
+		tx("send(more than the balance, to a 23-byte address never seen)", chain.TxSpec{Msg: "send", From: 3, To: 6000 + 14, Amount: 1000 * min}),
 	)
 	// (c) ante failures
 	cs = append(cs,
@@ -430,7 +432,7 @@ func init() {
 		Run: func(sc *Scenario, blocks []chain.Block) HistResult {
 			return RunC11History(sc.Cfg, sc.Prelude, blocks)
 		},
-		Rule:   "catalogue of judged calls: undecodable/corrupted bytes (6), ValidateBasic failures (6), unusual accepted transfers judged if rejected (5), ante failures (6), handler precondition failures and handler panics (22), CheckTx (4), Simulate (5), Query (26: store key/subspace/proof/heights, custom queries of all modules, app, p2p, malformed paths); each placed alone, before, between and after valid transactions, and after every pair of context blocks (stake, begin-unstake, missed vote, double-sign evidence, raised minimum stake, transfer); non-trivial = a state-changing transaction also succeeded in the history",
+		Rule:   "catalogue of judged calls: undecodable/corrupted bytes (6), ValidateBasic failures (6), unusual transfers (7), ante failures (6), handler precondition failures and handler panics (22), CheckTx (4), Simulate (5), Query (26: store key/subspace/proof/heights, custom queries of all modules, app, p2p, malformed paths); each placed alone, before, between and after valid transactions, and after every pair of context blocks (stake, begin-unstake, missed vote, double-sign evidence, raised minimum stake, transfer); non-trivial = a state-changing transaction also succeeded in the history",
 		QuickS: 240, ThoroughS: 1500,
 		Assume: []string{"a transaction counts as refused-before-the-handler when its result carries no message/action event; otherwise the handler ran and only signer -> fee collector may move", "the control run removes the read-only calls and must produce byte-identical consensus responses and app hashes"},
 	})
